@@ -7,7 +7,7 @@ import random
 from .. import common, gen, oracle
 from ..common import Ctx, Scheme
 
-COMMENT_POOL = ["the sodium current", "mV", "ms**-1", "pA*pF**-1", "1/0", "(", ")", "((", "a # b", "\"quoted\" 'text'", "ms: time", "µA/cm²", "x = 3",
+COMMENT_POOL = ["mV + mV", "2 mV", "mV*", "ms / 0", "C:\\temp\\", "a \\", "x\x0cexpressions(\"B\")", "see \x85 note", "the sodium current", "mV", "ms**-1", "pA*pF**-1", "1/0", "(", ")", "((", "a # b", "\"quoted\" 'text'", "ms: time", "µA/cm²", "x = 3",
                 "states(x=1)", "expressions(\"Z\")", "100 %", "1e400", "-", "**", "[1]", "{", "lambda: 0", "import os", "dx_dt = 0", "TODO: check; see ref. [3]",
                 "0", "nan", "inf", "e", "pi", "1 2 3", "unit=\"mV\"", "\\", "\\n", "tab\there", "   padded   ", "#", "##", "?", "a,b", "None", "True"]
 
